@@ -308,7 +308,7 @@ Proof.
   cbn [sem_multi] in H. destruct cs as [|c cs'].
   - inversion H; subst acc'. exists 1. intros [|k] Hk; [lia|]. reflexivity.
   - cbn [wf_cmds] in Hw. apply andb_true_iff in Hw as [Hwc Hwr].
-    destruct (sem_cmd n 0 ex None c (set_exit_trap None (set_trace (trace acc) s0)))
+    destruct (sem_cmd n 0 ex None c (child_state (set_trace (trace acc) s0)))
       as [[c1 c1s]|] eqn:Ec; [|discriminate].
     destruct (sem_exit_trap n ex c1s) as [c2|] eqn:Et; [|discriminate].
     assert (Hctx : ctx_ok (FSubshell :: stk) 0 infun ex) by (split; cbn; auto).
@@ -321,7 +321,7 @@ Proof.
     subst c1s.
     pose proof (Itrap (FSubshell :: stk) _ _ ex Et He (state_ok_apply_result r _ Hs1)) as Hok2.
     pose proof (Imulti stk _ _ _ _ infun ex H He Hwr Hs) as Hok3.
-    ok_start. cbn [exec_multi]. unfold child_state in *. ok_rw. reflexivity.
+    ok_start. cbn [exec_multi]. ok_rw. reflexivity.
 Qed.
 
 (* ---- the EXIT trap and subshells ---- *)
@@ -347,7 +347,7 @@ Lemma rstep_subshell n : rsim_list n -> rsim_trap n -> rsim_subshell (S n).
 Proof.
   intros Ilist Itrap stk body s c' infun ex H He Hw Hs.
   cbn [sem_subshell] in H.
-  destruct (sem_list n 0 ex None body (set_exit_trap None s)) as [[c1 c1s]|] eqn:El; [|discriminate].
+  destruct (sem_list n 0 ex None body (child_state s)) as [[c1 c1s]|] eqn:El; [|discriminate].
   assert (Hctx : ctx_ok (FSubshell :: stk) 0 infun ex) by (split; cbn; auto).
   destruct (Ilist (FSubshell :: stk) _ _ _ _ _ _ _ El Hctx Hw (state_ok_child _ Hs))
     as (r & cs1 & Hok1 & Habs1).
@@ -356,7 +356,7 @@ Proof.
   { rewrite <- abs_none_apply_result, Habs1. reflexivity. }
   subst c1s.
   pose proof (Itrap (FSubshell :: stk) _ _ ex H He (state_ok_apply_result r _ Hs1)) as Hok2.
-  ok_start. cbn [run_subshell]. unfold child_state in *. ok_rw. reflexivity.
+  ok_start. cbn [run_subshell]. ok_rw. reflexivity.
 Qed.
 
 (* ---- if ---- *)
@@ -830,6 +830,32 @@ Proof.
     cbn [sem_cmd] in H. inversion H; subst out. eexists; eexists. split.
     + now1. reflexivity.
     + rewrite apply_errexit_zero by reflexivity. reflexivity.
+  - (* x=$(body) *)
+    cbn [sem_cmd] in H. cbn [wf_cmd] in Hw. apply andb_true_iff in Hw as [_ Hwb].
+    destruct (sem_subshell n ex body s) as [child|] eqn:Esub; [|discriminate].
+    pose proof (Isub stk _ _ _ infun ex Esub Hex Hwb Hs) as Hok.
+    destruct (is_ronly x s) eqn:Ero.
+    + inversion H; subst out. eexists; eexists. split.
+      * ok_start. cbn [exec_cmd]. ok_rw. rewrite Ero. reflexivity.
+      * apply (abs_expansion_error stk sv _ ErrAssignment eq_refl eq_refl ex).
+    + inversion H; subst out. eexists; eexists. split.
+      * ok_start. cbn [exec_cmd]. ok_rw. rewrite Ero. reflexivity.
+      * apply abs_apply_errexit. exact Hex.
+  - (* : $(body) *)
+    cbn [sem_cmd] in H. cbn [wf_cmd] in Hw. apply andb_true_iff in Hw as [_ Hwb].
+    destruct (sem_subshell n ex body s) as [child|] eqn:Esub; [|discriminate].
+    pose proof (Isub stk _ _ _ infun ex Esub Hex Hwb Hs) as Hok.
+    inversion H; subst out. eexists; eexists. split.
+    + ok_start. cbn [exec_cmd]. ok_rw. reflexivity.
+    + rewrite apply_errexit_zero by reflexivity. reflexivity.
+  - (* { a & } *)
+    cbn [sem_cmd] in H. cbn [wf_cmd] in Hw.
+    assert (Hwb : wf_list 0 infun (LCons a LNil) = true) by (cbn [wf_list]; rewrite Hw; reflexivity).
+    destruct (sem_subshell n ex (LCons a LNil) s) as [child|] eqn:Esub; [|discriminate].
+    pose proof (Isub stk _ _ _ infun ex Esub Hex Hwb Hs) as Hok.
+    inversion H; subst out. eexists; eexists. split.
+    + ok_start. cbn [exec_cmd]. ok_rw. reflexivity.
+    + reflexivity.
   - exact (rstep_call n Icmd _ _ _ _ _ _ _ _ _ _ H Hc Hw Hs).
   - (* brace group *)
     cbn [sem_cmd] in H. cbn [wf_cmd] in Hw.
